@@ -16,6 +16,8 @@ def is_region(b):
 def iter_hier(scfg, owner=None, depth=0):
     """Yield (owner_region_or_None, scfg, name, block, depth) for every block
     and region at every level, graph-dict order, pre-order."""
+    if depth > 80:
+        raise RecursionError("hierarchy contains itself")
     for name, b in list(scfg.graph.items()):
         yield owner, scfg, name, b, depth
         if is_region(b) and b.subregion is not None:
